@@ -29,6 +29,11 @@ type Params struct {
 	// instantaneous, as with the tss-lib adapters): the orchestrator is parked between the end of the first
 	// synchronisation and the registration of the session's handlers, and other events can land in between
 	InitDelayMs int `json:"initDelayMs,omitempty"`
+	// ClassifyDelayMs: classifying a third of the messages (chosen by content) takes this long on the simulated
+	// clock. The orchestrator calls the classifier with no lock held, so the handler of that message is parked in
+	// the middle of HandleMessage (its link delivers nothing meanwhile, as with one reader goroutine per
+	// connection) while messages of other links, and local calls, go ahead: handling overlaps deterministically.
+	ClassifyDelayMs int `json:"classifyDelayMs,omitempty"`
 }
 
 type Event struct {
@@ -147,6 +152,9 @@ func (b *Backend) rec(e Event) {
 }
 
 func (b *Backend) ClassifyMsg(msgBytes []byte) (uint8, bool, error) {
+	if b.P.ClassifyDelayMs > 0 && prng.Hash64(msgBytes)%3 == 0 {
+		time.Sleep(time.Duration(b.P.ClassifyDelayMs) * time.Millisecond)
+	}
 	r, bc, err := Classify(msgBytes)
 	return r, bc, err
 }
